@@ -126,12 +126,12 @@ ToInt(a)  == IF IsNegB(a) THEN -(Comp(a)[1] + 256 * Comp(a)[2] + 65536 * Comp(a)
 RECURSIVE ShlC(_, _, _)
 ShlC(a, i, c) == IF i > 8 THEN <<>> ELSE LET s == 2 * a[i] + c IN <<s % 256>> \o ShlC(a, i + 1, s \div 256)
 Shl1(a, bit) == ShlC(a, 1, bit)                      \* 2a + bit modulo 2^64
+\* (no LET inside the recursion: TLC caches operator arguments but re-evaluates LET definitions)
 RECURSIVE UDivStep(_, _, _, _, _)
-UDivStep(x, y, i, q, r) ==
-  IF i < 0 THEN q
-  ELSE LET r1 == TLCEval(Shl1(r, Bit(x, i)))
-           ge == TLCEval(~ULt(r1, y))
-       IN UDivStep(x, y, i - 1, TLCEval(Shl1(q, IF ge THEN 1 ELSE 0)), TLCEval(IF ge THEN BSub(r1, y) ELSE r1))
+UDivStep3(x, y, i, q, r1, ge) ==
+  UDivStep(x, y, i - 1, Shl1(q, IF ge THEN 1 ELSE 0), IF ge THEN BSub(r1, y) ELSE r1)
+UDivStep2(x, y, i, q, r1) == UDivStep3(x, y, i, q, r1, ~ULt(r1, y))
+UDivStep(x, y, i, q, r) == IF i < 0 THEN q ELSE UDivStep2(x, y, i, q, Shl1(r, Bit(x, i)))
 UDiv(x, y) == UDivStep(x, y, 63, Z8, Z8)
 \* Go's truncated signed division on w-bit integers (y # 0); MinInt / -1 wraps to MinInt
 BQuo(w, x, y) ==
